@@ -15,20 +15,20 @@ namespace ShVerif.C05
 /-! ## Conservation -/
 
 /-- The whole of `Print(*File)` as one `Step` from the initial state. -/
-theorem printFile_step (o : Opts) (hm : o.minify = false) (f : File) (hw : WFStrict f = true) :
+theorem printFile_step (o : Opts) (hm : o.minify = false) (f : File) (hw : WFComments f = true) :
     Step (initSt o) (printFile o f) (allComments f) := by
   unfold printFile allComments
   have h1 := step_loop o hm false f.stmts (initSt o) hw
   exact (((((h1.andThen (listPost_step o hm _ _ f.last _)).andThen (newline_step o Pos.none _)).andThen
     (flushHeredocs_keeps o _).step).andThen (flushComments_step o _))).congr (by simp)
 
-/-- **Printer order = field order.**  With Minify off, on a tree that satisfies `WFComments` and
-    carries no comments on the statement inside `time`/`coproc`/`@test` (`WFStrict`), a run that
-    takes none of the state-dependent lossy branches (`lossD = 0`: a `BinaryCmd` printed on one
-    line although `Y.Comments` is not empty; an inline backquote comment written while comments
-    are pending) writes exactly the comment fields of the tree, each once, in field order. -/
+/-- **Printer order = field order.**  With Minify off, on a tree that satisfies `WFComments`, a
+    run that takes none of the state-dependent reordering branches (`lossD = 0`: a `BinaryCmd`
+    printed on one line whose non-empty `Y.Comments` is queued behind comments inside `Y`; an
+    inline backquote comment written while comments are pending) writes exactly the comment
+    fields of the tree, each once, in field order. -/
 theorem emitted_eq_allComments (o : Opts) (f : File) (hm : o.minify = false)
-    (hw : WFStrict f = true) (hl : (printFile o f).lossD = 0) :
+    (hw : WFComments f = true) (hl : (printFile o f).lossD = 0) :
     emitted o f = allComments f := by
   have hs := printFile_step o hm f hw
   have hacc := hs.2 (by simpa [initSt] using hl)
@@ -64,12 +64,11 @@ def comments_conserved_statement : Prop :=
   ∀ (o : Opts) (f : File), WFComments f = true → o.minify = false → emitted o f = sourceOrder f
 
 /-- **Comments are conserved** (multiset and order), with the exact extra hypotheses:
-    `WFStrict` (= `WFComments` + no comments on the statement inside `time`/`coproc`/`@test`),
-    no state-dependent lossy branch taken, and the canonical field order being the source
+    no state-dependent reordering branch taken, and the canonical field order being the source
     order (`SourceOrdered`, false where the parser stores a comment in a field that the printer
     emits before earlier comments: for-header comments, trailing comments before heredoc bodies). -/
 theorem comments_conserved_partial (o : Opts) (f : File) (hm : o.minify = false)
-    (hw : WFStrict f = true) (hl : (printFile o f).lossD = 0) (ho : SourceOrdered f = true) :
+    (hw : WFComments f = true) (hl : (printFile o f).lossD = 0) (ho : SourceOrdered f = true) :
     emitted o f = sourceOrder f := by
   rw [emitted_eq_allComments o f hm hw hl]
   unfold sourceOrder
@@ -80,7 +79,8 @@ theorem comments_conserved_partial (o : Opts) (f : File) (hm : o.minify = false)
 theorem nothing_pending_at_end (o : Opts) (f : File) : (printFile o f).pending = [] := by
   unfold printFile; exact flushComments_pending o _
 
-/-! ## Counter-examples to the full statement (each replayed on the Go code: corpus/C05-known.txt) -/
+/-! ## Counter-examples to the full statement (each replayed on the Go code: corpus/C05-known.txt)
+     and pinned behaviour of fixed findings -/
 
 def P (o l c : Nat) : Pos := ⟨true, o, l, c⟩
 def word1 (l : Nat) : List Item := [.li (.bsl l), .li (.bsl l), .li (.adv l)]
@@ -94,6 +94,16 @@ def exPipe : File :=
       (.binary (P 2 1 3)
         (.mk (P 0 1 1) (P 0 1 1) (P 1 1 2) Pos.none [] (.flat (word1 1)) [])
         (.mk (P 8 2 1) (P 8 2 1) (P 9 2 2) Pos.none [comC] (.flat (word1 2)) [])) []], []⟩
+
+/-- `a | # c1⏎$(b # c2⏎)` as dumped by the harness -/
+def exPipeNested : File :=
+  ⟨[.mk (P 0 1 1) (P 0 1 1) (P 19 3 2) Pos.none []
+      (.binary (P 2 1 3)
+        (.mk (P 0 1 1) (P 0 1 1) (P 1 1 2) Pos.none [] (.flat (word1 1)) [])
+        (.mk (P 9 2 1) (P 9 2 1) (P 19 3 2) Pos.none [⟨P 4 1 5, 8, [0x20, 0x63, 0x31]⟩]
+          (.flat (word1 2 ++ [.sub .dollar false 2 (P 9 2 1) (P 18 3 1)
+            [.mk (P 11 2 3) (P 11 2 3) (P 12 2 4) Pos.none [⟨P 13 2 5, 17, [0x20, 0x63, 0x32]⟩]
+              (.flat (word1 2)) []] [], .li (.adv 3)])) [])) []], []⟩
 
 /-- `for i in $(a # c1⏎) # c2⏎do :; done` as dumped by the harness -/
 def exFor : File :=
@@ -111,35 +121,40 @@ def exTime : File :=
       (.wrap [] (some (.mk (P 5 1 6) (P 5 1 6) (P 6 1 7) Pos.none [⟨P 11 1 12, 14, [0x20, 0x63]⟩]
         (.flat (word1 1)) [.mk (P 7 1 8) (some ⟨false, false, [], [], 0⟩) [.li (.bsl 1), .li (.adv 1)]]))) []], []⟩
 
-/-- SingleLine loses the comment between `|` and the next command (finding
-    C05-singleline-drops-binary-y-comments). -/
-theorem counter_singleLine_pipe :
-    WFStrict exPipe = true ∧ SourceOrdered exPipe = true ∧
-    emitted { singleLine := true } exPipe = [] ∧ sourceOrder exPipe = [comC] ∧
-    emitted {} exPipe = [comC] := by decide
-
-/-- Comments between a `for` header and `do` overtake the comments inside the header (finding
-    C05-for-header-comments-queued-early): nothing is lost, the order changes. -/
+/-- Comments between a `for` header and `do` overtake the comments inside the header (open
+    finding C05-for-header-comments-queued-early): nothing is lost, the order changes. -/
 theorem counter_for_header :
-    WFStrict exFor = true ∧ (printFile {} exFor).lossD = 0 ∧ SourceOrdered exFor = false ∧
+    WFComments exFor = true ∧ (printFile {} exFor).lossD = 0 ∧ SourceOrdered exFor = false ∧
     emitted {} exFor = [com2, com1] ∧ sourceOrder exFor = [com1, com2] := by decide
 
-/-- The comment of the statement inside `time` is never printed (finding
-    C05-time-coproc-inner-comments-lost): `WFComments` holds, `WFStrict` does not. -/
-theorem counter_time_inner :
-    WFComments exTime = true ∧ WFStrict exTime = false ∧ emitted {} exTime = [] ∧
-    (sourceOrder exTime).length = 1 := by decide
+/-- SingleLine queues the comment between `|` and the next command behind the comments inside
+    that command (open finding C05-singleline-ycomments-after-nested): the order changes. -/
+theorem counter_singleLine_nested :
+    WFComments exPipeNested = true ∧ SourceOrdered exPipeNested = true ∧
+    (printFile { singleLine := true } exPipeNested).lossD = 1 ∧
+    (emitted { singleLine := true } exPipeNested).map (·.pos.offs) = [13, 4] ∧
+    (sourceOrder exPipeNested).map (·.pos.offs) = [4, 13] := by decide
 
 theorem comments_conserved_statement_false : ¬ comments_conserved_statement := by
   intro h
-  have := h { singleLine := true } exPipe (by decide) rfl
+  have := h {} exFor (by decide) rfl
   revert this
   decide
 
+/-- Pinned (fixed by /repo 5414a4f): SingleLine keeps the comment between `|` and the next
+    command. -/
+theorem pinned_singleLine_pipe :
+    emitted { singleLine := true } exPipe = [comC] ∧ emitted {} exPipe = [comC] := by decide
+
+/-- Pinned (fixed by /repo 94a311f): the comment of the statement inside `time` is printed. -/
+theorem pinned_time_inner :
+    WFComments exTime = true ∧ emitted {} exTime = sourceOrder exTime ∧
+    (sourceOrder exTime).length = 1 := by decide
+
 /-- Non-vacuity: the hypotheses of `comments_conserved_partial` hold of `a | # c⏎b` under the
     default options, and a comment is written. -/
-example : WFStrict exPipe = true ∧ (printFile {} exPipe).lossD = 0 ∧ SourceOrdered exPipe = true ∧
-    emitted {} exPipe = [comC] := by decide
+example : WFComments exPipe = true ∧ (printFile { singleLine := true } exPipe).lossD = 0 ∧
+    SourceOrdered exPipe = true ∧ emitted { singleLine := true } exPipe = [comC] := by decide
 
 /-! ## Minify -/
 
@@ -149,17 +164,12 @@ theorem printFile_mstep (o : Opts) (hm : o.minify = true) (f : File) : MStep (in
   exact ((((mstep_loop o hm false f.stmts (initSt o)).andThen (listPost_mstep o hm _ _ f.last _)).andThen
     (newline_mstep o Pos.none _)).andThen (flushHeredocs_mstep o _)).andThen (flushComments_mstep o _)
 
-/-- The property as stated for Minify.  FALSE of the model and of the code: the
-    "`# inline comment`" branch of `cmdSubst` does not test `p.minify` (counter-example below). -/
-def minify_shebang_statement : Prop :=
-  ∀ (o : Opts) (f : File), o.minify = true → ∀ c ∈ emitted o f, shebangAt11 c = true
-
-/-- **With Minify the only comment written is a shebang at 1:1** — provided the run does not
-    take the inline backquote comment branch (`inlineN = 0`).  No well-formedness is needed. -/
-theorem minify_shebang_partial (o : Opts) (f : File) (hm : o.minify = true)
-    (hi : (printFile o f).inlineN = 0) : ∀ c ∈ emitted o f, shebangAt11 c = true := by
+/-- **With Minify the only comment written is a shebang at 1:1** — for every tree and every
+    option set with Minify; no well-formedness is needed. -/
+theorem minify_shebang (o : Opts) (f : File) (hm : o.minify = true) :
+    ∀ c ∈ emitted o f, shebangAt11 c = true := by
   intro c hc
-  have h := (printFile_mstep o hm f).2 (by simpa [initSt] using hi) (by simp [initSt])
+  have h := printFile_mstep o hm f (by simp [initSt])
   rcases h.2 c hc with h | h
   · simp [initSt] at h
   · exact h
@@ -182,20 +192,13 @@ def exShebang : File :=
   ⟨[.mk (P 10 2 1) (P 10 2 1) (P 11 2 2) Pos.none
       [⟨P 0 1 1, 9, [0x21, 0x2F, 0x62, 0x69, 0x6E, 0x2F, 0x73, 0x68]⟩, ⟨P 12 2 3, 15, [0x20, 0x63]⟩] (.flat (word1 2)) []], []⟩
 
-/-- Minify keeps an inline backquote comment (finding C05-minify-keeps-backquote-inline-comment). -/
-theorem counter_minify_inline :
-    emitted { minify := true } exInline = [⟨P 6 1 7, 9, [0x20, 0x63]⟩] ∧
-    shebangAt11 ⟨P 6 1 7, 9, [0x20, 0x63]⟩ = false := by decide
-
-theorem minify_shebang_statement_false : ¬ minify_shebang_statement := by
-  intro h
-  have := h { minify := true } exInline rfl ⟨P 6 1 7, 9, [0x20, 0x63]⟩ (by decide)
-  revert this
-  decide
+/-- Pinned (fixed by /repo 48c3159): Minify drops an inline backquote comment, the default
+    options keep it. -/
+theorem pinned_minify_inline :
+    emitted { minify := true } exInline = [] ∧ (emitted {} exInline).length = 1 := by decide
 
 /-- Non-vacuity: with Minify the shebang of `#!/bin/sh⏎a # c` is kept, the other comment is not. -/
-example : (printFile { minify := true } exShebang).inlineN = 0 ∧
-    (emitted { minify := true } exShebang).map (·.pos) = [P 0 1 1] ∧
+example : (emitted { minify := true } exShebang).map (·.pos) = [P 0 1 1] ∧
     (emitted {} exShebang).length = 2 := by decide
 
 end ShVerif.C05
